@@ -366,6 +366,9 @@ def part_b(chk, E, tmp):
     subjects.append((f"personalize mean_posterior seed={seed}", perso_thunk("mean_posterior", seed, n_iter=15)))
     subjects.append((f"personalize mode_posterior seed={seed}", perso_thunk("mode_posterior", seed, n_iter=15)))
     subjects.append((f"personalize scipy_minimize seed={seed}", perso_thunk("scipy_minimize", seed)))
+    # the same request served by a pool of worker processes (workers are reused between calls: their generators are part of
+    # the process history)
+    subjects.append((f"personalize scipy_minimize n_jobs=2 seed={seed}", perso_thunk("scipy_minimize", seed, n_jobs=2)))
     subjects.append((f"simulate seed={seed}", sim_thunk(seed)))
     subjects.append(("simulate seed=0", sim_thunk(0)))          # 0 is a seed like any other
     # reference results first, all of them, before any other activity took place in this interpreter
